@@ -589,6 +589,7 @@ type SpecDB struct {
 	Contracts map[string]*Contract // full key
 	Preds     map[string]*Pred
 	UFs       map[string]*UFDecl
+	Guards    map[string]string // "T.field" -> name of the mutex field of T that guards it
 	Lemmas    map[string]*Lemma
 	Ifaces    map[string]*IfaceSpec
 	Files     []string
@@ -603,7 +604,7 @@ type UFDecl struct {
 	Pkg    string
 }
 
-var clauseKeywords = map[string]bool{"uf": true, "pred": true,"func": true, "lemma": true, "interface": true, "property": true, "mode": true,
+var clauseKeywords = map[string]bool{"guarded": true, "uf": true, "pred": true,"func": true, "lemma": true, "interface": true, "property": true, "mode": true,
 	"requires": true, "ensures": true, "modifies": true, "inline": true, "trusted": true, "loop": true, "invariant": true,
 	"decreases": true, "maypanic": true, "forall": false, "ghost": true, "method": true, "assume": true, "vars": true, "nosafety": true, "pure": true, "witness": true, "wraps": true,
 	"atomic": true, "rely": true, "guarantee": true, "addassume": true}
@@ -611,7 +612,7 @@ var clauseKeywords = map[string]bool{"uf": true, "pred": true,"func": true, "lem
 // LoadSpecs reads every verif_contracts.go under the repo plus the assumed
 // contracts under /verif/contracts/assumed.
 func LoadSpecs(repo string, pkgDirs []string, assumedDir string) (*SpecDB, error) {
-	db := &SpecDB{Contracts: map[string]*Contract{}, Preds: map[string]*Pred{}, Lemmas: map[string]*Lemma{}, Ifaces: map[string]*IfaceSpec{}, UFs: map[string]*UFDecl{}}
+	db := &SpecDB{Contracts: map[string]*Contract{}, Preds: map[string]*Pred{}, Lemmas: map[string]*Lemma{}, Ifaces: map[string]*IfaceSpec{}, UFs: map[string]*UFDecl{}, Guards: map[string]string{}}
 	for _, d := range pkgDirs {
 		dir := filepath.Join(repo, d)
 		matches, _ := filepath.Glob(filepath.Join(dir, "verif_contracts*.go"))
@@ -712,6 +713,20 @@ func (db *SpecDB) loadFile(path, pkg string, assumed bool) error {
 	}
 	for _, rc := range raws {
 		switch rc.kw {
+		case "guarded":
+			// guarded T.f, T.g by T.mu
+			parts := strings.SplitN(rc.rest, " by ", 2)
+			if len(parts) != 2 {
+				return fmt.Errorf("%s:%d: guarded needs 'fields by T.mu'", path, rc.line)
+			}
+			mu := strings.TrimSpace(parts[1])
+			if k := strings.LastIndex(mu, "."); k >= 0 {
+				mu = mu[k+1:]
+			}
+			for _, f := range strings.Split(parts[0], ",") {
+				db.Guards[strings.TrimSpace(f)] = mu
+			}
+			curC, curL, curLoop, curI, curM = nil, nil, nil, nil, nil
 		case "uf":
 			// uf name(params) rettype : an uninterpreted specification function; slice
 			// parameters are passed by content (backing array, offset, length)
